@@ -309,8 +309,50 @@ _SB = _c18_methods(SPOOLED_BYTES, [
      'tie_theorem': 'C18.src_sb_truncate_eq_model'},
 ])
 
+# boltons.funcutils.FunctionBuilder (round 3c; extension module harness/py2lean_c13.py, notes/SRCTIE.md section 1f).
+# Argument names are an abstract type κ with decidable equality, default values an abstract type ν.  `defaults` is
+# `None` or a tuple; `kwonlydefaults` a dict; `exc_sub` is not an attribute: it holds the tag of a user-defined
+# exception class in flight (`MissingArgument` / `ExistingArgument`, both plain subclasses of ValueError, which is
+# what PyExc shows of them).  `NO_DEFAULT` is the "argument omitted" marker of `add_arg`.  Attributes the translated
+# methods do not touch (`doc`, `module`, `body`, `annotations`, `dict`, `indent`, `filename`, `is_async`) are not
+# declared: a method that starts using one leaves the subset.
+FUNCTION_BUILDER = {
+    'name': 'FunctionBuilder', 'lean_name': 'FunctionBuilder', 'tparams': ['κ', 'ν'], 'deceq': ['κ'],
+    'inhabited': ['ν'],
+    'state': {'name': 'κ', 'args': 'List κ', 'defaults': 'Option (List ν)', 'kwonlyargs': 'List κ',
+              'kwonlydefaults': 'Dict κ ν', 'varargs': 'Option κ', 'varkw': 'Option κ', 'exc_sub': 'Int'},
+    'sentinels': ['NO_DEFAULT'], 'ext': 'py2lean_c13',
+    'user_exc': {'MissingArgument': {'base': 'ValueError', 'tag': 1},
+                 'ExistingArgument': {'base': 'ValueError', 'tag': 2}},
+}
+_FB_GEN = 'funcutils_fb'
+_FB = _cls_methods(FUNCTION_BUILDER, 'boltons.funcutils', [
+    {'py': 'get_defaults_dict', 'name': 'get_defaults_dict', 'params': {}, 'result': 'Dict κ ν',
+     'tie_theorem': 'C13.src_get_defaults_dict_eq_model'},
+    {'py': 'get_arg_names', 'name': 'get_arg_names', 'params': {'only_required': 'Bool'}, 'result': 'List κ',
+     'tie_theorem': 'C13.src_get_arg_names_eq_model'},
+    {'py': 'add_arg', 'name': 'add_arg', 'params': {'arg_name': 'κ', 'default': 'Option ν', 'kwonly': 'Bool'},
+     'result': 'None', 'tie_theorem': 'C13.src_add_arg_eq_model'},
+    {'py': 'remove_arg', 'name': 'remove_arg', 'params': {'arg_name': 'κ'}, 'result': 'None',
+     'tie_theorem': 'C13.src_remove_arg_eq_model'},
+])
+# the decision logic of `update_wrapper` on the builder `fb` (a REGION of the module-level function, cut out by the
+# pre-pass: the statements after `fb = FunctionBuilder.from_func(...)` up to the first one that uses anything but the
+# declared parameters and the builder's declared attributes / translated methods): the `injected` loop, the `expected`
+# loop and the `call_name` collision loop.  `call_name` is a NAME built from string literals: `PyRtC13.Names κ`.
+_UW = {'py': 'update_wrapper', 'qualname': 'update_wrapper', 'module': 'boltons.funcutils', 'cls': FUNCTION_BUILDER,
+       'method': True, 'lean_name': 'FunctionBuilder.update_wrapper_core', 'kind': 'function', 'raises': True,
+       'loop_fuel': True, 'region': {'object': 'fb', 'result': 'call_name'}, 'names': ['call_name'],
+       'classes': ['PyRtC13.Names κ'],
+       'params': {'injected': 'List κ', 'expected_items': 'List (κ × Option ν)', 'inject_to_varkw': 'Bool'},
+       'result': 'κ', 'tie_theorem': 'C13.src_update_wrapper_core_eq_model'}
+_FB = _FB + [_UW]
+for _sp in _FB:
+    _sp['gen_file'] = _FB_GEN
+
 SPECS = {
     'C18': _MFR + _SB,
+    'C13': _FB,
     'C02': _LRI + _LRU,
     'C20': _TC,
     'C17': _OTO + _M2M,
